@@ -415,8 +415,9 @@ PROPS = {
         "Hd.Pool.C04_dedup_issue", "Hd.Pool.C04_dedup_poll", "Hd.Pool.C04_marker_owner", "Hd.Pool.issue_found", "Hd.Pool.issue_missing"]),
     "C05": pool_prop("HdModel.Props.C05", ["C05/"], ["Hd.Pool.C05_pop_spec", "Hd.Pool.C05_expired_head", "Hd.Pool.C05_no_timeout_never_expires",
         "Hd.Pool.C05_pop_suffix", "Hd.Pool.C05_issue_fresh"], timed=True),
-    "C06": pool_prop("HdModel.Props.C06", ["C06/"], ["Hd.Pool.C06_tokenOf", "Hd.Pool.C06_tokens_distinct", "Hd.Pool.C06_new_conn_origin",
-        "Hd.Pool.keysOk_init"]),
+    "C06": pool_prop("HdModel.Props.C06", ["C06/"], ["Hd.Pool.C06_request_gets_own_origin", "Hd.Pool.C06_held_same_origin",
+        "Hd.Pool.C06_idle_same_origin", "Hd.Pool.step_originInv", "Hd.Pool.run_originInv", "Hd.Pool.step_coSame",
+        "Hd.Pool.C06_tokenOf", "Hd.Pool.C06_tokens_distinct", "Hd.Pool.C06_new_conn_origin", "Hd.Pool.keysOk_init"]),
     "C14": pool_prop("HdModel.Props.C14", ["C14/"], ["Hd.Pool.C14_preempt", "Hd.Pool.pushLoop_first_live", "Hd.Pool.C14_keeps_listening",
         "Hd.Pool.C14_continue", "Hd.Pool.C14_discard"]),
     "C15": pool_prop("HdModel.Props.C15", ["C15/"], ["Hd.Pool.C15_idle_bound", "Hd.Pool.step_idleBound", "Hd.Pool.push_idleBound"]),
